@@ -262,6 +262,53 @@ def check(ctx, rep):
             done_c.add(s.func)
             completeness_obligations(ctx, rep, eff, s, H)
     loader_guard_obligations(ctx, rep, eff, "R11a")
+    rep.rule("R11g", "what runs after a failed cache load (the handlers around the load and what they call) cannot fail on the request itself: "
+             "no format operation there has request text in its format string (= R03m on the failure paths)", floor=1)
+    failure_path_total_obligations(ctx, rep, eff, "R11g")
+
+
+
+def failure_path_total_obligations(ctx, rep, eff, rule="R11g"):
+    """What runs when a cache load has failed (the handlers of the guards around the load, and the functions they call) cannot
+    itself fail on the request: no format operation there takes request text as its format string."""
+    from .c03 import format_string_obligations
+
+    prog = ctx.prog
+    funcs = set()
+    n_handlers = 0
+    for s, H in deser_sites(ctx, eff):
+        holders = [(s.func, s.call)]
+        for g in prog.all_functions():
+            if g is s.func or not g.module.name.startswith("pygopherd"):
+                continue
+            for call2, t2 in eff.calls_of(g, g.cls):
+                if t2.kind == "repo" and s.func in t2.funcs:
+                    holders.append((g, call2))
+        for f, call in holders:
+            for tr in enclosing_tries(f.node, call):
+                for h in tr.handlers:
+                    n_handlers += 1
+                    funcs.add(f)
+                    work = []
+                    for node in ast.walk(h):
+                        if isinstance(node, ast.Call):
+                            t = ctx.resolver.resolve(node, f, H if f.cls is not None and prog.is_subclass(H, f.cls) else f.cls)
+                            if t is not None and t.kind == "repo":
+                                work.extend((x, 0) for x in t.funcs if x is not None)
+                    while work:
+                        g, d = work.pop()
+                        if g in funcs or not g.module.name.startswith("pygopherd"):
+                            continue
+                        funcs.add(g)
+                        if d < 2:
+                            for c3, t3 in eff.calls_of(g, g.cls):
+                                if t3.kind == "repo" and not t3.by_name:
+                                    work.extend((x, d + 1) for x in t3.funcs if x is not None)
+    if not n_handlers:
+        rep.fail(rule, "cache loaders", detail="no guarded cache load found")
+        return
+    format_string_obligations(ctx, rep, rule, only_funcs=funcs,
+                              none_text=f"nothing on the failure paths of the cache loads formats with request text as the format string [{len(funcs)} functions]")
 
 
 def loader_guard_obligations(ctx, rep, eff, rule="R11a"):
